@@ -169,4 +169,14 @@ PROPS = {
         "quick": {"shards": 16, "cases": 12000, "require": {"evaluations": 1000000, "hist_crossed_capacity": 200, "subset_true": 5000}},
         "thorough": {"shards": 16, "cases": 600000, "watchdog_s": 3600, "require": {"evaluations": 20000000}},
     },
+    "C18": {
+        "technique": "runtime monitoring: every public compilation entry point (parse -> relation, schema/size, rendering, privacy-unit and DP rewriting) called under catch_unwind with a logical work budget (hook `tick`), overflow checks on, in subprocess shards with an in-flight log (aborts and stack overflows are seen as a dead shard with its last case)",
+        "level_text": "Exploration: ~60k queries per quick run over hostile schemas (i64::MIN/MAX, +-f64::MAX, ranges containing / touching zero, zero-width ranges, 100+ interval pieces, huge integer ranges, nullable everything, declared sizes 0 and i64::MAX) with the full function list, plus a second grammar of syntactically valid but unsupported constructs whose required outcome is an error value; DpParameters include zero budgets and shares 0 / 1. Outcome must be Ok or Err: a panic, an exhausted work budget (2e9 interval operations / enumerated values) or a dead process is a violation, keyed by entry point + panic site.",
+        "level_note": "Trusted: catch_unwind + the panic hook recording the site, the tick hook (interval operations and value enumeration). A wall-clock watchdog only yields 'inconclusive'.",
+        "rule": ("4 queries per catalogue (3/4 supported grammar, 1/4 unsupported grammar) x 5 entry points; evaluation = one entry-point call; distinct non-trivial = distinct (query, schema) pairs."),
+        "assumptions": COMMON_ASSUME,
+        "crash_is_violation": True,
+        "quick": {"shards": 16, "cases": 1200, "watchdog_s": 1500, "require": {"evaluations": 200000, "ok:dp_rewriting:supported": 2000, "err:parse:unsupported": 2000}},
+        "thorough": {"shards": 16, "cases": 40000, "watchdog_s": 14400, "require": {"evaluations": 6000000}},
+    },
 }
